@@ -64,6 +64,8 @@ def dispatch (line : String) : String :=
   | "limwrap" :: rest => (handleLimWrap rest).getD "BAD-CASE\t0"
   | "limwire" :: rest => (Driver.E2E.handleLimWire rest).getD "BAD-CASE\t0"
   | "e2earp" :: rest => (Driver.E2E.handleE2EArp rest).getD "BAD-CASE\t0"
+  | "e2esigint" :: rest => (Driver.E2E.handleE2ESigint rest).getD "BAD-CASE\t0"
+  | "e2ejson" :: rest => (handleE2EJson rest).getD "BAD-CASE\t0"
   | "e2edelay" :: rest => (Driver.E2E.handleE2EDelay rest).getD "BAD-CASE\t0"
   | "limrt" :: rest => (handleLimRT rest).getD "BAD-CASE\t0"
   | "engine" :: rest => (handleEngine rest).getD "BAD-CASE\t0"
